@@ -50,19 +50,40 @@ func (t *threadRepo) pause(op string) {
 	t.sc.events <- schedEvent{t.tid, "arrive:" + op}
 	<-t.sc.grant[t.tid]
 }
-func (t *threadRepo) GetFiles() ([]*icl.File, error) { t.pause("GetFiles"); return t.inner.GetFiles() }
+
+// every repository call is bracketed by two pause points: before it (the access is the atomic action
+// of the model) and after it (the handler holds what it read while other requests run)
+func (t *threadRepo) GetFiles() ([]*icl.File, error) {
+	t.pause("GetFiles")
+	fs, err := t.inner.GetFiles()
+	t.pause("after:GetFiles")
+	return fs, err
+}
 func (t *threadRepo) GetFile(id string) (*icl.File, error) {
 	t.pause("GetFile")
-	return t.inner.GetFile(id)
+	f, err := t.inner.GetFile(id)
+	t.pause("after:GetFile")
+	return f, err
 }
-func (t *threadRepo) SaveFile(f *icl.File) error { t.pause("SaveFile"); return t.inner.SaveFile(f) }
-func (t *threadRepo) DeleteFile(id string) error { t.pause("DeleteFile"); return t.inner.DeleteFile(id) }
+func (t *threadRepo) SaveFile(f *icl.File) error {
+	t.pause("SaveFile")
+	err := t.inner.SaveFile(f)
+	t.pause("after:SaveFile")
+	return err
+}
+func (t *threadRepo) DeleteFile(id string) error {
+	t.pause("DeleteFile")
+	err := t.inner.DeleteFile(id)
+	t.pause("after:DeleteFile")
+	return err
+}
 
 type concRun struct {
 	env      *apiEnv
 	reqs     []*apiReq
 	sc       *sched
-	status   []string // "", "running", "arrived", "finished"
+	status   []string // "", "running", "blocked", "arrived", "finished"
+	at       []string // the pause point an arrived thread is parked at
 	recs     []*httptest.ResponseRecorder
 	launched []int // real-time: index of the action at which the thread was launched
 	finished []int // ... and finished (-1: not yet)
@@ -71,10 +92,9 @@ type concRun struct {
 	step     int
 }
 
-
 func newConcRun(env *apiEnv, reqs []*apiReq) *concRun {
 	n := len(reqs)
-	c := &concRun{env: env, reqs: reqs, status: make([]string, n), recs: make([]*httptest.ResponseRecorder, n),
+	c := &concRun{env: env, reqs: reqs, status: make([]string, n), at: make([]string, n), recs: make([]*httptest.ResponseRecorder, n),
 		launched: make([]int, n), finished: make([]int, n)}
 	c.sc = &sched{events: make(chan schedEvent, 64), grant: make([]chan struct{}, n)}
 	for i := range c.sc.grant {
@@ -109,6 +129,7 @@ func (c *concRun) drain(expect int) (arrived, finished []int) {
 					finished = append(finished, ev.tid)
 				} else {
 					c.status[ev.tid] = "arrived"
+					c.at[ev.tid] = strings.TrimPrefix(ev.what, "arrive:")
 					arrived = append(arrived, ev.tid)
 				}
 			default:
@@ -203,14 +224,24 @@ func (c *concRun) launch(i int) {
 func (c *concRun) grantNext(i int) {
 	c.actions = append(c.actions, fmt.Sprintf("G%d", i))
 	c.step++
+	after := strings.HasPrefix(c.at[i], "after:")
 	c.status[i] = "running"
 	c.sc.grant[i] <- struct{}{}
 	arrived, finished := c.drain(i)
-	c.events = append(c.events, fmt.Sprintf("t%d", i))
+	if !after {
+		c.events = append(c.events, fmt.Sprintf("t%d", i)) // the repository access itself
+	}
 	if c.status[i] == "finished" {
 		c.events = append(c.events, fmt.Sprintf("t%d", i), fmt.Sprintf("t%d", i))
 	}
 	c.others(i, arrived, finished)
+}
+
+// finish grants thread i until it has returned
+func (c *concRun) finish(i int) {
+	for k := 0; k < 8 && c.status[i] == "arrived"; k++ {
+		c.grantNext(i)
+	}
 }
 
 // others: threads other than i that moved (a blocked thread acquired the lock after a release)
@@ -252,7 +283,22 @@ func (c *concRun) allFinished() bool {
 // runSchedule executes the choice sequence (indices into enabled()); after it is exhausted the first
 // enabled action is taken until everything has finished.  Returns the choices actually available at
 // each point (for enumeration).
-func (c *concRun) runSchedule(choices []int) (branching []int, stuck bool) {
+func (c *concRun) runSchedule(choices []int, actions []string) (branching []int, stuck bool) {
+	for _, a := range actions {
+		var i int
+		fmt.Sscan(a[1:], &i)
+		switch {
+		case a[0] == 'L' && c.status[i] == "":
+			c.launch(i)
+		case a[0] == 'G' && c.status[i] == "arrived":
+			c.grantNext(i)
+		case a[0] == 'F':
+			if c.status[i] == "" {
+				c.launch(i)
+			}
+			c.finish(i)
+		}
+	}
 	for k := 0; !c.allFinished(); k++ {
 		en := c.enabled()
 		if len(en) == 0 {
@@ -271,7 +317,7 @@ func (c *concRun) runSchedule(choices []int) (branching []int, stuck bool) {
 		} else {
 			c.grantNext(i)
 		}
-		if k > 64 {
+		if k > 96 {
 			return branching, true
 		}
 	}
@@ -306,6 +352,8 @@ type concCase struct {
 	Setup   []*apiReq `json:"setup"`
 	Reqs    []*apiReq `json:"requests"`
 	Choices []int     `json:"choices"`
+	Actions []string  `json:"actions,omitempty"` // explicit prefix: L<i> launch, G<i> grant once, F<i> run to completion
+	Enum    int       `json:"-"`                 // >0: enumerate up to this many distinct schedules of the group (DFS over the choices)
 }
 
 func runC12(cfg *config) *Report {
@@ -334,7 +382,7 @@ func runC12(cfg *config) *Report {
 	}
 	var ps []*pending
 	var lines []string
-	for _, cc := range cases {
+	execOne := func(cc concCase) (branching []int) {
 		env := &apiEnv{repo: verifhooks.NewInMemoryRepo(), reg: reg}
 		// sequential setup through an unscheduled router
 		h := verifhooks.NewRouter(env.repo)
@@ -344,7 +392,7 @@ func runC12(cfg *config) *Report {
 		}
 		p := &pending{cc: cc, init: env.storeDump()}
 		p.run = newConcRun(env, cc.Reqs)
-		_, p.stuck = p.run.runSchedule(cc.Choices)
+		branching, p.stuck = p.run.runSchedule(cc.Choices, cc.Actions)
 		p.final = env.storeDump()
 		for i, q := range cc.Reqs {
 			p.lines = append(p.lines, env.modelLine(q, recToResp(p.run.recs[i])))
@@ -364,6 +412,31 @@ func runC12(cfg *config) *Report {
 			lines = append(lines, fmt.Sprintf("apifrom\t%s\t%s", initArg, strings.Join(ls, "|")))
 		}
 		ps = append(ps, p)
+		return branching
+	}
+	for _, cc := range cases {
+		if cc.Enum <= 0 {
+			execOne(cc)
+			continue
+		}
+		// depth-first enumeration of the schedules of this group
+		var choices []int
+		for n := 0; n < cc.Enum; n++ {
+			c2 := cc
+			c2.Choices = append([]int{}, choices...)
+			br := execOne(c2)
+			for len(choices) < len(br) {
+				choices = append(choices, 0)
+			}
+			k := len(br) - 1
+			for k >= 0 && choices[k]+1 >= br[k] {
+				k--
+			}
+			if k < 0 {
+				break
+			}
+			choices = append(choices[:k], choices[k]+1)
+		}
 	}
 	outs, err := leanParallel(cfg.driver, lines, 8)
 	if err != nil {
@@ -392,7 +465,7 @@ func runC12(cfg *config) *Report {
 		if overlap {
 			rep.nontrivial(strings.Join(p.lines, "|") + "@" + strings.Join(p.run.actions, ","))
 		}
-		replay := map[string]any{"setup": p.cc.Setup, "requests": p.cc.Reqs, "choices": p.cc.Choices, "real_actions": p.run.actions,
+		replay := map[string]any{"setup": p.cc.Setup, "requests": p.cc.Reqs, "choices": p.cc.Choices, "actions": p.cc.Actions, "real_actions": p.run.actions,
 			"model_events": p.run.events, "initial_store": p.init, "final_store": p.final}
 		if p.stuck {
 			rep.violate(Violation{Key: "C12:stuck:" + tag, What: "the requests did not all finish under this schedule (deadlock or a handler that never returns)", Replay: replay})
@@ -491,50 +564,89 @@ func safeIdx(xs []string, i int) string {
 	return "?"
 }
 
-// genConcCases: every ordered pair of request kinds on one file with every schedule (by choice
-// enumeration up to depth 6), plus seeded triples.
+// genConcCases: every unordered pair of request kinds on one file with its schedules enumerated
+// depth-first (capped), long-lived readers (a reader parked after its repository call while one to three
+// writers run to completion), and seeded triples.
 func genConcCases(r rng, pools *apiPools, tier string) []concCase {
 	doc := pools.jsonDocs[0] // client ID cf0
 	id := pools.jsonIDs[0]
 	doc2 := pools.jsonDocs[1]
 	id2 := pools.jsonIDs[1]
+	// a different document under the first file's ID (re-upload)
+	var m map[string]any
+	json.Unmarshal(doc2, &m)
+	m["id"] = id
+	reup, _ := json.Marshal(m)
 	setup := []*apiReq{{Kind: "c1", CT: "application/json", Body: doc}, {Kind: "c1", CT: "application/json", Body: doc2}}
 	hdr := pools.headers[0].b
 	hdr2 := pools.headers[1].b
 	cl := pools.cashLts[0].b
 	cl2 := pools.cashLts[1].b
-	existingCL := pools.clIDs[0]
+	var f0 icl.File
+	json.Unmarshal(doc, &f0)
+	firstCL, lastCL := f0.CashLetters[0].ID, f0.CashLetters[len(f0.CashLetters)-1].ID
+	var c0, c1v icl.CashLetter
+	json.Unmarshal(cl, &c0)
+	json.Unmarshal(cl2, &c1v)
 	mk := map[string]func() *apiReq{
-		"get":  func() *apiReq { return &apiReq{Kind: "get", ID: id} },
-		"list": func() *apiReq { return &apiReq{Kind: "list"} },
-		"cont": func() *apiReq { return &apiReq{Kind: "cont", ID: id} },
-		"val":  func() *apiReq { return &apiReq{Kind: "val", ID: id} },
-		"upd":  func() *apiReq { return &apiReq{Kind: "upd", ID: id, Body: hdr} },
-		"upd2": func() *apiReq { return &apiReq{Kind: "upd", ID: id, Body: hdr2} },
-		"add":  func() *apiReq { return &apiReq{Kind: "add", ID: id, Body: cl} },
-		"add2": func() *apiReq { return &apiReq{Kind: "add", ID: id, Body: cl2} },
-		"rem":  func() *apiReq { return &apiReq{Kind: "rem", ID: id, CID: existingCL} },
-		"del":  func() *apiReq { return &apiReq{Kind: "del", ID: id} },
-		"c1":   func() *apiReq { return &apiReq{Kind: "c1", CT: "application/json", Body: doc} }, // re-upload under the same ID
-		"c2":   func() *apiReq { return &apiReq{Kind: "c2", CT: "application/json", Body: doc} },
-		"updO": func() *apiReq { return &apiReq{Kind: "upd", ID: id2, Body: hdr} }, // another file
-		"bad":  func() *apiReq { return &apiReq{Kind: "upd", ID: id, Body: []byte("{")} },
+		"get":    func() *apiReq { return &apiReq{Kind: "get", ID: id} },
+		"list":   func() *apiReq { return &apiReq{Kind: "list"} },
+		"cont":   func() *apiReq { return &apiReq{Kind: "cont", ID: id} },
+		"val":    func() *apiReq { return &apiReq{Kind: "val", ID: id} },
+		"upd":    func() *apiReq { return &apiReq{Kind: "upd", ID: id, Body: hdr} },
+		"upd2":   func() *apiReq { return &apiReq{Kind: "upd", ID: id, Body: hdr2} },
+		"add":    func() *apiReq { return &apiReq{Kind: "add", ID: id, Body: cl} },
+		"add2":   func() *apiReq { return &apiReq{Kind: "add", ID: id, Body: cl2} },
+		"rem":    func() *apiReq { return &apiReq{Kind: "rem", ID: id, CID: firstCL} },
+		"remL":   func() *apiReq { return &apiReq{Kind: "rem", ID: id, CID: lastCL} },
+		"remA":   func() *apiReq { return &apiReq{Kind: "rem", ID: id, CID: c0.ID} },  // the cash letter "add" appends
+		"remA2":  func() *apiReq { return &apiReq{Kind: "rem", ID: id, CID: c1v.ID} }, // the one "add2" appends
+		"del":    func() *apiReq { return &apiReq{Kind: "del", ID: id} },
+		"c1":     func() *apiReq { return &apiReq{Kind: "c1", CT: "application/json", Body: reup} }, // re-upload, other content
+		"c2":     func() *apiReq { return &apiReq{Kind: "c2", CT: "application/json", Body: doc} },
+		"updO":   func() *apiReq { return &apiReq{Kind: "upd", ID: id2, Body: hdr} }, // another file
+		"bad":    func() *apiReq { return &apiReq{Kind: "upd", ID: id, Body: []byte("{")} },
+		"getReq": func() *apiReq { return &apiReq{Kind: "get", ID: id, ReqID: "rq-1"} },
 	}
-	names := []string{"get", "list", "cont", "val", "upd", "upd2", "add", "add2", "rem", "del", "c1", "c2", "updO", "bad"}
+	names := []string{"get", "list", "cont", "val", "upd", "upd2", "add", "add2", "rem", "remL", "del", "c1", "c2", "updO", "bad", "getReq"}
 	var cases []concCase
-	// all schedules of every unordered pair: choice vectors over {0,1}^5
+	capPair := 14
+	if tier == "thorough" {
+		capPair = 400
+	}
 	for a := 0; a < len(names); a++ {
 		for b := a; b < len(names); b++ {
-			if tier != "thorough" && !(isWriter(names[a]) || isWriter(names[b])) {
+			if !(isWriter(names[a]) || isWriter(names[b])) {
 				continue
 			}
-			for v := 0; v < 32; v++ {
-				ch := []int{v & 1, v >> 1 & 1, v >> 2 & 1, v >> 3 & 1, v >> 4 & 1}
-				cases = append(cases, concCase{Setup: setup, Reqs: []*apiReq{mk[names[a]](), mk[names[b]]()}, Choices: ch})
-			}
+			cases = append(cases, concCase{Setup: setup, Reqs: []*apiReq{mk[names[a]](), mk[names[b]]()}, Enum: capPair})
 		}
 	}
-	nTri := 150
+	// long-lived readers
+	readers := []string{"get", "list", "cont"}
+	writers := []string{"add", "add2", "remL", "rem", "remA", "remA2", "upd", "upd2", "c1", "del"}
+	nLong := 120
+	if tier == "thorough" {
+		nLong = 2500
+	}
+	for k := 0; k < nLong; k++ {
+		nw := 1 + r.Intn(4)
+		rq := []*apiReq{mk[readers[r.Intn(len(readers))]]()}
+		acts := []string{"L0", "G0"}
+		pre := r.Intn(3) // writers completed before the reader arrives (they shape the stored slice)
+		var preActs []string
+		for j := 1; j <= nw; j++ {
+			rq = append(rq, mk[writers[r.Intn(len(writers))]]())
+			if j <= pre {
+				preActs = append(preActs, fmt.Sprintf("F%d", j))
+			} else {
+				acts = append(acts, fmt.Sprintf("F%d", j))
+			}
+		}
+		acts = append(append(preActs, acts...), "F0")
+		cases = append(cases, concCase{Setup: setup, Reqs: rq, Actions: acts})
+	}
+	nTri := 100
 	if tier == "thorough" {
 		nTri = 3000
 	}
@@ -543,7 +655,7 @@ func genConcCases(r rng, pools *apiPools, tier string) []concCase {
 		for j := 0; j < 3; j++ {
 			rq = append(rq, mk[names[r.Intn(len(names))]]())
 		}
-		ch := make([]int, 9)
+		ch := make([]int, 14)
 		for j := range ch {
 			ch[j] = r.Intn(3)
 		}
@@ -554,7 +666,7 @@ func genConcCases(r rng, pools *apiPools, tier string) []concCase {
 
 func isWriter(n string) bool {
 	switch n {
-	case "upd", "upd2", "add", "add2", "rem", "del", "c1", "c2", "updO":
+	case "upd", "upd2", "add", "add2", "rem", "remL", "del", "c1", "c2", "updO":
 		return true
 	}
 	return false
